@@ -130,6 +130,10 @@ def run(F, R):
     # E18: ring slots of completions are computed modulo the size the device was told: queue_set receives SIZE (C06.L3)
     from .C06 import registration_rule
     registration_rule(F, R, 'E18')
+    # E20: the owning queue reports every completion it consumed, a zero-length one included (C19.Q4 exposure table)
+    if M.owning_adt:
+        from .C19 import q4b_exposure_table
+        guard(R, 'E20', 'exposure', lambda: q4b_exposure_table(F, RuleProxy(R, {'Q4': 'E20'}), M, roles))
     e16_chain_link(F, R, M)
     e17_helper_waits(F, R, M, roles)
 
